@@ -10,7 +10,10 @@
      5. [stream_q_correct]: one queue fed with start-sorted, non-empty intervals
      6. the per-pid dict: the samples of pid p emitted by [run_stage] are those of [stream_q] on p's
         Prep intervals; pass-through events
-     7. the main lemmas used by props/C13.v, and the refutation for an empty interval *)
+     7. the main lemmas used by props/C13.v (default mode, sorted_input = true), the empty interval
+     8. hold mode (sorted_input = false, what -M registers): the stored list is strictly increasing and
+        denotes count_at of the intervals so far for ANY arrival order ([hinv], [hold_step]); the
+        any-order counterparts of the main lemmas *)
 From Coq Require Import ZArith QArith List Bool String Lia Lqa Sorted.
 Import ListNotations.
 From AiuModel Require Import Base PrepQueue.
@@ -325,7 +328,7 @@ Qed.
 
 Lemma inv_step ivs sp E q s e rd q1 :
   inv ivs sp E q -> (sp <= s)%Q -> (s < e)%Q ->
-  update_queues s e q = (rd, q1) ->
+  update_queues true s e q = (rd, q1) ->
   inv (ivs ++ [(s, e)]) s (E ++ rd) q1.
 Proof.
   intros [Hsort Hden Hhead Hcov Hlast] Hsp Hse Hupd.
@@ -350,7 +353,7 @@ Proof.
   set (LR := lastc 0 (E ++ R)).
   (* the code's last_ready (computed from the stored queue only) is as good as the true one *)
   assert (Hnl : q1 = new_list LR M P s e /\ rd = R).
-  { unfold update_queues in Hupd. rewrite Hq in Hupd. rewrite <- Hq in Hupd. fold R M P in Hupd.
+  { unfold update_queues in Hupd. rewrite Hq in Hupd. cbv beta iota zeta in Hupd. rewrite <- Hq in Hupd. fold R M P in Hupd.
     inversion Hupd; subst rd q1. split; [|reflexivity].
     destruct (Qlt_b_spec x s) as [Hxs|Hxs].
     - (* head of the queue is ready: R is not empty *)
@@ -434,14 +437,14 @@ Definition start_le (a b : Q * Q) : Prop := (fst a <= fst b)%Q.
 Lemma stream_q_inv ivs : forall ivs0 sp E q,
   inv ivs0 sp E q -> Forall nonempty_iv ivs -> StronglySorted start_le ivs ->
   Forall (fun iv => (sp <= fst iv)%Q) ivs ->
-  exists sp', inv (ivs0 ++ ivs) sp' (E ++ fst (stream_q q ivs)) (snd (stream_q q ivs)).
+  exists sp', inv (ivs0 ++ ivs) sp' (E ++ fst (stream_q true q ivs)) (snd (stream_q true q ivs)).
 Proof.
   induction ivs as [|[s e] r IH]; intros ivs0 sp E q Hinv Hne Hso Hsp.
   - exists sp. cbn. now rewrite !app_nil_r.
   - inversion Hne as [|? ? Hne1 Hne']; subst. unfold nonempty_iv in Hne1. cbn [fst snd] in Hne1.
     cbn [stream_q]. destruct (Qle_b_spec e s) as [Hes|_]; [lra|].
-    destruct (update_queues s e q) as [rd q1] eqn:Hu.
-    destruct (stream_q q1 r) as [em q2] eqn:Hst. cbn [fst snd].
+    destruct (update_queues true s e q) as [rd q1] eqn:Hu.
+    destruct (stream_q true q1 r) as [em q2] eqn:Hst. cbn [fst snd].
     inversion Hso as [|? ? Hso' Hall]; subst.
     inversion Hsp as [|? ? Hsp1 Hsp']; subst. cbn [fst] in Hsp1.
     assert (Hi : inv (ivs0 ++ [(s, e)]) s (E ++ rd) q1) by (eapply inv_step; eassumption).
@@ -474,7 +477,7 @@ Record series_ok (ivs : list (Q * Q)) (W : list bp) : Prop := mkOk {
 (* first for streams of non-empty intervals only ... *)
 Lemma stream_q_correct_ne ivs :
   Forall nonempty_iv ivs -> StronglySorted start_le ivs ->
-  series_ok ivs (fst (stream_q [] ivs) ++ snd (stream_q [] ivs)).
+  series_ok ivs (fst (stream_q true [] ivs) ++ snd (stream_q true [] ivs)).
 Proof.
   intros Hne Hso. destruct ivs as [|[s e] r].
   - cbn. constructor.
@@ -487,7 +490,7 @@ Proof.
   - inversion Hne as [|? ? Hne1 Hne']; subst. inversion Hso as [|? ? Hso' Hall]; subst.
     assert (Hse : (s < e)%Q) by exact Hne1.
     cbn [stream_q update_queues]. destruct (Qle_b_spec e s) as [Hes|_]; [lra|].
-    destruct (stream_q [(s, 1); (e, 0)] r) as [em q2] eqn:Hst.
+    destruct (stream_q true [(s, 1); (e, 0)] r) as [em q2] eqn:Hst.
     cbn [fst snd app].
     destruct (stream_q_inv r [(s, e)] s [] [(s, 1); (e, 0)] (inv_first s e Hne1) Hne' Hso') as [sp' H].
     { eapply Fimp; [exact Hall|]. unfold start_le. cbn. auto. }
@@ -505,13 +508,13 @@ Proof.
   unfold ne_b, nonempty_iv. destruct (Qle_b_spec (snd iv) (fst iv)); cbn; constructor; lra.
 Qed.
 
-Lemma stream_q_skip ivs : forall q, stream_q q ivs = stream_q q (filter ne_b ivs).
+Lemma stream_q_skip si ivs : forall q, stream_q si q ivs = stream_q si q (filter ne_b ivs).
 Proof.
   induction ivs as [|[s e] r IH]; intros q; [reflexivity|].
   cbn [stream_q filter]. unfold ne_b at 1. cbn [fst snd].
   destruct (Qle_b e s) eqn:Hg; cbn [negb].
   - apply IH.
-  - cbn [stream_q]. rewrite Hg. destruct (update_queues s e q) as [rd q1]. now rewrite IH.
+  - cbn [stream_q]. rewrite Hg. destruct (update_queues si s e q) as [rd q1]. now rewrite IH.
 Qed.
 
 Lemma inside_ne t iv : inside t iv = true -> ne_b iv = true.
@@ -535,16 +538,9 @@ Proof.
   apply Forall_forall. intros y Hy. apply filter_In in Hy. rewrite Forall_forall in Hx. apply Hx, Hy.
 Qed.
 
-Theorem stream_q_correct ivs :
-  StronglySorted start_le ivs ->
-  series_ok ivs (fst (stream_q [] ivs) ++ snd (stream_q [] ivs)).
+Lemma series_ok_skip ivs W : series_ok (filter ne_b ivs) W -> series_ok ivs W.
 Proof.
-  intros Hso. rewrite stream_q_skip.
-  assert (H : series_ok (filter ne_b ivs)
-                (fst (stream_q [] (filter ne_b ivs)) ++ snd (stream_q [] (filter ne_b ivs)))).
-  { apply stream_q_correct_ne; [|now apply ssorted_filter].
-    apply Forall_filter. intros iv Hiv. now destruct (ne_b_spec iv). }
-  destruct H as [H1 H2 H3 H4 H5 H6]. constructor.
+  intros [H1 H2 H3 H4 H5 H6]. constructor.
   - exact H1.
   - intros t. rewrite count_at_skip. apply H2.
   - intros t c Hin. rewrite count_at_skip. now apply H3.
@@ -553,6 +549,16 @@ Proof.
   - exact H5.
   - intros Hall. apply H6. apply Forall_forall. intros iv Hiv. apply filter_In in Hiv as [Hin _].
     rewrite Forall_forall in Hall. now apply Hall.
+Qed.
+Lemma filter_ne_nonempty ivs : Forall nonempty_iv (filter ne_b ivs).
+Proof. apply Forall_filter. intros iv Hiv. now destruct (ne_b_spec iv). Qed.
+
+Theorem stream_q_correct ivs :
+  StronglySorted start_le ivs ->
+  series_ok ivs (fst (stream_q true [] ivs) ++ snd (stream_q true [] ivs)).
+Proof.
+  intros Hso. rewrite stream_q_skip. apply series_ok_skip.
+  apply stream_q_correct_ne; [apply filter_ne_nonempty|now apply ssorted_filter].
 Qed.
 
 (* ------------------------------------------------------------------ 6. the dict of queues *)
@@ -659,17 +665,17 @@ Proof.
   destruct (e_pid e =? p); reflexivity.
 Qed.
 
-Lemma feed_proj keep evs : forall qs qs' os,
-  feed keep qs evs = Ok (qs', os) -> NoDup (map fst qs) ->
+Lemma feed_proj si keep evs : forall qs qs' os,
+  feed si keep qs evs = Ok (qs', os) -> NoDup (map fst qs) ->
   NoDup (map fst qs') /\
   passed (List.concat os) = filter (fun e => keep || negb (is_prep_ev e)) evs /\
-  forall p, samples_of p (List.concat os) = fst (stream_q (qof p qs) (preps_of p evs)) /\
-            qof p qs' = snd (stream_q (qof p qs) (preps_of p evs)).
+  forall p, samples_of p (List.concat os) = fst (stream_q si (qof p qs) (preps_of p evs)) /\
+            qof p qs' = snd (stream_q si (qof p qs) (preps_of p evs)).
 Proof.
   induction evs as [|e r IH]; intros qs qs' os Hf Hnd.
   - cbn in Hf. inversion Hf; subst. cbn. repeat split; auto.
-  - cbn [feed] in Hf. destruct (step keep qs e) as [[qs1 o]|] eqn:Hs; [|discriminate].
-    destruct (feed keep qs1 r) as [[qs2 os2]|] eqn:Hr; [|discriminate].
+  - cbn [feed] in Hf. destruct (step si keep qs e) as [[qs1 o]|] eqn:Hs; [|discriminate].
+    destruct (feed si keep qs1 r) as [[qs2 os2]|] eqn:Hr; [|discriminate].
     inversion Hf; subst qs' os. clear Hf.
     unfold step in Hs. unfold is_prep_ev. cbn [filter List.concat].
     destruct (classify e) as [[[s e']|]|] eqn:Hc; [| |discriminate].
@@ -687,7 +693,7 @@ Proof.
            assert (Hsm : samples_of p (if keep then [OPass e] else []) = []) by (destruct keep; reflexivity).
            rewrite Hsm. cbn [app]. destruct (e_pid e =? p); [|split; assumption].
            cbn [stream_q]. rewrite Hg. split; assumption.
-      * destruct (update_queues s e' (qof (e_pid e) (q_touch (e_pid e) qs))) as [ready nq] eqn:Hu.
+      * destruct (update_queues si s e' (qof (e_pid e) (q_touch (e_pid e) qs))) as [ready nq] eqn:Hu.
         rewrite qof_touch in Hu.
         inversion Hs; subst qs1 o. clear Hs.
         destruct (IH _ _ _ Hr (nodup_set _ _ _ Hnd0)) as (Hn2 & Hp2 & Hq2).
@@ -704,7 +710,7 @@ Proof.
            rewrite Hsm. destruct (e_pid e =? p) eqn:E.
            ++ apply Z.eqb_eq in E. subst p. cbn [stream_q]. rewrite Hg, Hu.
               rewrite qof_set_same in Ha, Hb.
-              destruct (stream_q nq (preps_of (e_pid e) r)) as [em q2]. cbn [fst snd] in *. now subst.
+              destruct (stream_q si nq (preps_of (e_pid e) r)) as [em q2]. cbn [fst snd] in *. now subst.
            ++ apply Z.eqb_neq in E. rewrite qof_set_other, qof_touch in Ha, Hb by congruence.
               cbn [app]. split; assumption.
     + (* passed through *)
@@ -716,15 +722,15 @@ Proof.
 Qed.
 
 (* what run_stage emits for pid p = what one queue emits on p's Prep intervals; what it passes on *)
-Theorem run_stage_proj keep evs r :
-  run_stage keep evs = Ok r ->
+Theorem run_stage_proj si keep evs r :
+  run_stage si keep evs = Ok r ->
   passed (all_out r) = filter (fun e => keep || negb (is_prep_ev e)) evs /\
   forall p, samples_of p (all_out r) =
-            fst (stream_q [] (preps_of p evs)) ++ snd (stream_q [] (preps_of p evs)).
+            fst (stream_q si [] (preps_of p evs)) ++ snd (stream_q si [] (preps_of p evs)).
 Proof.
-  unfold run_stage. destruct (feed keep [] evs) as [[qs os]|] eqn:Hf; [|discriminate].
+  unfold run_stage. destruct (feed si keep [] evs) as [[qs os]|] eqn:Hf; [|discriminate].
   intros H. inversion H; subst r. clear H. unfold all_out. cbn [fst snd].
-  destruct (feed_proj keep evs [] qs os Hf) as (Hn & Hp & Hq); [constructor|].
+  destruct (feed_proj si keep evs [] qs os Hf) as (Hn & Hp & Hq); [constructor|].
   split.
   - now rewrite passed_app, passed_drain, app_nil_r.
   - intros p. destruct (Hq p) as [Ha Hb]. rewrite samples_of_app, samples_of_drain by exact Hn.
@@ -733,10 +739,10 @@ Qed.
 
 (* ------------------------------------------------------------------ 7. main lemmas *)
 Theorem counter_correct keep evs r p :
-  run_stage keep evs = Ok r -> StronglySorted start_le (preps_of p evs) ->
+  run_stage true keep evs = Ok r -> StronglySorted start_le (preps_of p evs) ->
   series_ok (preps_of p evs) (samples_of p (all_out r)).
 Proof.
-  intros Hr Hso. destruct (run_stage_proj keep evs r Hr) as [_ Hs]. rewrite Hs.
+  intros Hr Hso. destruct (run_stage_proj true keep evs r Hr) as [_ Hs]. rewrite Hs.
   now apply stream_q_correct.
 Qed.
 
@@ -754,8 +760,32 @@ Proof.
 Qed.
 
 (* the statement of C13 for one pid, spelled out *)
+Definition seven_parts (I : list (Q * Q)) (W : list bp) : Prop :=
+  StronglySorted (fun a b : bp => (fst a < fst b)%Q) W /\
+  (forall t c, In (t, c) W -> c = count_at I t) /\
+  (forall t, den 0 W t = count_at I t) /\
+  (forall iv, In iv I -> (fst iv < snd iv)%Q ->
+     (exists x, In x W /\ (fst x == fst iv)%Q) /\ (exists x, In x W /\ (fst x == snd iv)%Q)) /\
+  (forall t1 t2, (t1 <= t2)%Q -> (forall x, In x W -> ~ ((t1 < fst x)%Q /\ (fst x <= t2)%Q)) ->
+                 count_at I t1 = count_at I t2) /\
+  lastc 0 W = 0 /\
+  (Forall (fun iv => ~ (fst iv < snd iv)%Q) I -> W = []).
+
+Lemma series_ok_seven I W : series_ok I W -> seven_parts I W.
+Proof.
+  intros H. unfold seven_parts. repeat split.
+  - apply (ok_sorted _ _ H).
+  - apply (ok_samples _ _ H).
+  - apply (ok_den _ _ H).
+  - apply (ok_cover _ _ H iv H0 H1).
+  - apply (ok_cover _ _ H iv H0 H1).
+  - intros t1 t2 Hle Hno. now apply (no_change_without_sample I W t1 t2 H).
+  - apply (ok_last0 _ _ H).
+  - apply (ok_empty _ _ H).
+Qed.
+
 Theorem counter_correct_full keep evs r p :
-  run_stage keep evs = Ok r ->
+  run_stage true keep evs = Ok r ->
   StronglySorted (fun a b => (fst a <= fst b)%Q) (preps_of p evs) ->
   let W := samples_of p (all_out r) in
   let I := preps_of p evs in
@@ -769,17 +799,7 @@ Theorem counter_correct_full keep evs r p :
   lastc 0 W = 0 /\
   (Forall (fun iv => ~ (fst iv < snd iv)%Q) I -> W = []).
 Proof.
-  intros Hr Hso W I.
-  assert (H : series_ok I W) by (apply (counter_correct keep evs r p Hr); assumption).
-  repeat split.
-  - apply (ok_sorted _ _ H).
-  - apply (ok_samples _ _ H).
-  - apply (ok_den _ _ H).
-  - apply (ok_cover _ _ H iv H0 H1).
-  - apply (ok_cover _ _ H iv H0 H1).
-  - intros t1 t2 Hle Hno. now apply (no_change_without_sample I W t1 t2 H).
-  - apply (ok_last0 _ _ H).
-  - apply (ok_empty _ _ H).
+  intros Hr Hso W I. apply series_ok_seven. apply (counter_correct keep evs r p Hr). assumption.
 Qed.
 
 (* an interval with end <= start is in flight at no time *)
@@ -791,18 +811,18 @@ Qed.
 
 (* the guard of create_counter (fix of the zero-duration defect): an interval with end <= start emits
    nothing and leaves every pid's queue as it was (the pid merely gets its, possibly empty, dict entry) *)
-Theorem empty_interval_ignored qs p s e :
+Theorem empty_interval_ignored si qs p s e :
   (e <= s)%Q ->
-  snd (create_counter qs p s e) = [] /\ forall p', qof p' (fst (create_counter qs p s e)) = qof p' qs.
+  snd (create_counter si qs p s e) = [] /\ forall p', qof p' (fst (create_counter si qs p s e)) = qof p' qs.
 Proof.
   intros H. unfold create_counter. destruct (Qle_b_spec e s); [|contradiction]. cbn [fst snd].
   split; [reflexivity|]. intros p'. apply qof_touch.
 Qed.
 
-Theorem prep_removed keep evs r :
-  run_stage keep evs = Ok r ->
+Theorem prep_removed si keep evs r :
+  run_stage si keep evs = Ok r ->
   passed (all_out r) = filter (fun e => keep || negb (is_prep_ev e)) evs.
-Proof. intros Hr. apply (run_stage_proj keep evs r Hr). Qed.
+Proof. intros Hr. apply (run_stage_proj si keep evs r Hr). Qed.
 
 (* a stream sorted by ts (what MpSyncTightContext.drain delivers) is start-sorted for every pid *)
 Definition ts_le (a b : ev) : Prop := (e_ts a <= e_ts b)%Q.
@@ -850,6 +870,171 @@ Proof.
     apply Forall_app; split; [eapply Fimp; [exact HMs|]|eapply Fimp; [exact HP|]]; cbn; intros; lra.
 Qed.
 
+(* ------------------------------------------------------------------ 8. hold mode (sorted_input = false) *)
+(* With -M no stage sorts the events in front of this one; the context is then built with
+   sorted_input = False: update_queues hands nothing out, the stored list keeps the breakpoints before s
+   (ready_list + new_list) and drain() emits the whole list.  The stored list after a step is
+   R ++ new_list (lastc 0 R) M P s e for the three filters R / M / P of the old list; for an empty stored
+   list that is the early return [(s,1); (e,0)] as well. *)
+Lemma update_queues_hold s e q :
+  update_queues false s e q =
+  ([], filter (is_ready s) q ++
+       new_list (lastc 0 (filter (is_ready s) q)) (filter (is_mid s e) q) (filter (is_post e) q) s e).
+Proof. destruct q as [|x q]; reflexivity. Qed.
+
+(* invariant of the stored list q after the (non-empty) intervals ivs, in ANY order *)
+Record hinv (ivs : list (Q * Q)) (q : list bp) : Prop := mkHinv {
+  hinv_sorted : tsorted q;
+  hinv_den : forall t, den 0 q t = count_at ivs t;
+  hinv_cover : forall iv, In iv ivs -> has_time (fst iv) q /\ has_time (snd iv) q;
+  hinv_last0 : lastc 0 q = 0 }.
+
+Lemma hinv_nil : hinv [] [].
+Proof. constructor; [constructor|reflexivity|intros iv []|reflexivity]. Qed.
+
+Lemma hold_step ivs q s e :
+  hinv ivs q -> (s < e)%Q ->
+  fst (update_queues false s e q) = [] /\ hinv (ivs ++ [(s, e)]) (snd (update_queues false s e q)).
+Proof.
+  intros [Hsort Hden Hcov Hlast] Hse. rewrite update_queues_hold. cbn [fst snd]. split; [reflexivity|].
+  set (R := filter (is_ready s) q) in *.
+  set (M := filter (is_mid s e) q) in *.
+  set (P := filter (is_post e) q) in *.
+  assert (Hsplit : q = R ++ M ++ P) by (apply split3; assumption).
+  assert (HR : all_lt R s) by apply ready_lt.
+  assert (HMs : all_ge M s) by apply mid_ge.
+  assert (HMe : all_lt M e) by apply mid_lt.
+  assert (HP : all_ge P e) by apply post_ge.
+  assert (HsR : tsorted R) by now apply tsorted_filter.
+  assert (HsM : tsorted M) by now apply tsorted_filter.
+  assert (HsP : tsorted P) by now apply tsorted_filter.
+  set (LR := lastc 0 R).
+  assert (HNLge : all_ge (new_list LR M P s e) s) by now apply new_list_ge.
+  constructor.
+  - (* sorted *)
+    apply tsorted_app; [exact HsR|now apply new_list_sorted|]. eapply cross_lt_ge; eassumption.
+  - (* denotation: the old step function plus the indicator of [s, e), wherever s lies *)
+    intros t. rewrite count_at_app, <- (Hden t). rewrite Hsplit.
+    apply queue_step_denotation; assumption.
+  - (* every start and end is a breakpoint *)
+    assert (Hkeep : forall t, has_time t q -> has_time t (R ++ new_list LR M P s e)).
+    { intros t (p & Hp & Ht). rewrite Hsplit in Hp.
+      apply in_app_or in Hp as [Hp|Hp]; [apply has_time_app_l; now exists p|].
+      apply has_time_app_r. unfold new_list. apply has_time_app_r.
+      apply in_app_or in Hp as [Hp|Hp]; [apply has_time_app_l, has_time_bump; now exists p|].
+      apply has_time_app_r, has_time_app_r. now exists p. }
+    assert (Hs : has_time s (new_list LR M P s e)).
+    { unfold new_list. destruct M as [|[y d] M'] eqn:EM.
+      - apply has_time_app_l. exists (s, LR + 1). split; [now left|reflexivity].
+      - destruct (Qlt_b_spec s y).
+        + apply has_time_app_l. exists (s, LR + 1). split; [now left|reflexivity].
+        + pose proof (Forall_inv HMs) as Hy. cbn [fst] in Hy. cbn [app]. apply has_time_app_l.
+          exists (y, d + 1). split; [now left|cbn; lra]. }
+    assert (He : has_time e (new_list LR M P s e)).
+    { unfold new_list. apply has_time_app_r, has_time_app_r. destruct P as [|[y d] P'] eqn:EP.
+      - apply has_time_app_l. eexists (e, _). split; [now left|reflexivity].
+      - destruct (Qlt_b_spec e y).
+        + apply has_time_app_l. eexists (e, _). split; [now left|reflexivity].
+        + pose proof (Forall_inv HP) as Hy. cbn [fst] in Hy. cbn [app].
+          exists (y, d). split; [now left|cbn; lra]. }
+    intros iv Hiv. apply in_app_or in Hiv as [Hiv|[<-|[]]].
+    + destruct (Hcov iv Hiv). split; apply Hkeep; assumption.
+    + cbn [fst snd]. split; apply has_time_app_r; assumption.
+  - (* series ends at 0 *)
+    rewrite Hsplit in Hlast. rewrite lastc_app in Hlast. fold LR in Hlast.
+    rewrite lastc_app. fold LR. unfold new_list.
+    rewrite !lastc_app. rewrite lastc_app in Hlast.
+    destruct P as [|[y d] P'] eqn:EP.
+    + cbn [lastc fold_left snd] in *. exact Hlast.
+    + destruct (Qlt_b e y); cbn [lastc fold_left snd] in *; exact Hlast.
+Qed.
+
+(* one queue, whole stream, no hypothesis on the order *)
+Lemma stream_q_hold ivs : forall ivs0 q,
+  hinv ivs0 q -> Forall nonempty_iv ivs ->
+  fst (stream_q false q ivs) = [] /\ hinv (ivs0 ++ ivs) (snd (stream_q false q ivs)).
+Proof.
+  induction ivs as [|[s e] r IH]; intros ivs0 q Hinv Hne.
+  - cbn. rewrite app_nil_r. split; [reflexivity|exact Hinv].
+  - inversion Hne as [|? ? Hne1 Hne']; subst. unfold nonempty_iv in Hne1. cbn [fst snd] in Hne1.
+    cbn [stream_q]. destruct (Qle_b_spec e s) as [Hes|_]; [lra|].
+    destruct (hold_step ivs0 q s e Hinv Hne1) as [Hf Hi].
+    destruct (update_queues false s e q) as [rd q1]. cbn [fst snd] in Hf, Hi. subst rd.
+    destruct (IH (ivs0 ++ [(s, e)]) q1 Hi Hne') as [Hf2 Hi2].
+    destruct (stream_q false q1 r) as [em q2]. cbn [fst snd] in *. subst em.
+    split; [reflexivity|]. rewrite <- app_assoc in Hi2. exact Hi2.
+Qed.
+
+Lemma stream_q_hold_correct_ne ivs :
+  Forall nonempty_iv ivs ->
+  series_ok ivs (fst (stream_q false [] ivs) ++ snd (stream_q false [] ivs)).
+Proof.
+  intros Hne. destruct (stream_q_hold ivs [] [] hinv_nil Hne) as [Hf Hi]. cbn [app] in Hi.
+  rewrite Hf. cbn [app]. destruct Hi as [H1 H2 H3 H4]. constructor; try assumption.
+  - intros t c Hin. rewrite <- H2. symmetry. now apply den_at_sample.
+  - intros iv Hin _. now apply H3.
+  - intros Hall. destruct ivs as [|iv r]; [reflexivity|].
+    inversion Hall as [|? ? Hn _]; subst. inversion Hne; subst. contradiction.
+Qed.
+
+Theorem stream_q_hold_correct ivs :
+  series_ok ivs (fst (stream_q false [] ivs) ++ snd (stream_q false [] ivs)).
+Proof.
+  rewrite stream_q_skip. apply series_ok_skip. apply stream_q_hold_correct_ne, filter_ne_nonempty.
+Qed.
+
+(* in hold mode the callbacks hand out no counter sample at all: everything comes from drain() *)
+Lemma stream_q_hold_silent ivs : forall q, fst (stream_q false q ivs) = [].
+Proof.
+  induction ivs as [|[s e] r IH]; intros q; [reflexivity|]. cbn [stream_q].
+  destruct (Qle_b e s); [apply IH|]. rewrite update_queues_hold.
+  specialize (IH (filter (is_ready s) q ++
+       new_list (lastc 0 (filter (is_ready s) q)) (filter (is_mid s e) q) (filter (is_post e) q) s e)).
+  destruct (stream_q false _ r) as [em q2]. cbn [fst] in *. now subst.
+Qed.
+
+Theorem counter_correct_any_order keep evs r p :
+  run_stage false keep evs = Ok r ->
+  series_ok (preps_of p evs) (samples_of p (all_out r)).
+Proof.
+  intros Hr. destruct (run_stage_proj false keep evs r Hr) as [_ Hs]. rewrite Hs.
+  apply stream_q_hold_correct.
+Qed.
+
+Theorem counter_correct_full_any_order keep evs r p :
+  run_stage false keep evs = Ok r ->
+  let W := samples_of p (all_out r) in
+  let I := preps_of p evs in
+  StronglySorted (fun a b : bp => (fst a < fst b)%Q) W /\
+  (forall t c, In (t, c) W -> c = count_at I t) /\
+  (forall t, den 0 W t = count_at I t) /\
+  (forall iv, In iv I -> (fst iv < snd iv)%Q ->
+     (exists x, In x W /\ (fst x == fst iv)%Q) /\ (exists x, In x W /\ (fst x == snd iv)%Q)) /\
+  (forall t1 t2, (t1 <= t2)%Q -> (forall x, In x W -> ~ ((t1 < fst x)%Q /\ (fst x <= t2)%Q)) ->
+                 count_at I t1 = count_at I t2) /\
+  lastc 0 W = 0 /\
+  (Forall (fun iv => ~ (fst iv < snd iv)%Q) I -> W = []).
+Proof.
+  intros Hr W I. apply series_ok_seven. apply (counter_correct_any_order keep evs r p Hr).
+Qed.
+
+(* ... and nothing but the passed-through events leaves the callbacks in hold mode *)
+Theorem hold_callbacks_silent keep evs r p :
+  run_stage false keep evs = Ok r -> samples_of p (List.concat (fst r)) = [].
+Proof.
+  unfold run_stage. destruct (feed false keep [] evs) as [[qs os]|] eqn:Hf; [|discriminate].
+  intros H. inversion H; subst r. clear H. cbn [fst].
+  destruct (feed_proj false keep evs [] qs os Hf) as (_ & _ & Hq); [constructor|].
+  destruct (Hq p) as [Ha _]. rewrite Ha. apply stream_q_hold_silent.
+Qed.
+
+(* the order matters in the default mode: the stream of the replay that led to the fix
+   ([1013,1015) [1015,1024) [1014,1023), the third one listed late) is miscounted when the context
+   believes its input sorted, and counted right when it holds its samples *)
+Definition late_witness : list ev :=
+  [E "X" "a Cmpt Prep" 0 (1013 # 1) (Some (2 # 1)) 0 0; E "X" "b Cmpt Prep" 0 (1015 # 1) (Some (9 # 1)) 1 0;
+   E "X" "c Cmpt Prep" 0 (1014 # 1) (Some (9 # 1)) 2 0].
+
 (* the input that used to break the property (a Prep slice with dur = 0 after a normal one): now the
    empty slice leaves no trace in the series *)
 Definition zero_witness : list ev :=
@@ -857,7 +1042,7 @@ Definition zero_witness : list ev :=
    E "X" "c Cmpt Prep" 7 (11 # 1) (Some (0 # 1)) 2 0].
 
 Lemma zero_witness_ok :
-  exists r, run_stage false zero_witness = Ok r /\
+  exists r, run_stage true false zero_witness = Ok r /\
     map (fun x => (Qred (fst x), snd x)) (samples_of 0 (all_out r)) = [((0 # 1)%Q, 1); ((4 # 1)%Q, 0)] /\
     samples_of 7 (all_out r) = [] /\ passed (all_out r) = [].
 Proof. eexists. split; [vm_compute; reflexivity|]. repeat split; vm_compute; reflexivity. Qed.
